@@ -37,6 +37,11 @@ type MagnetCase struct {
 var hashA = []byte{0x01, 0x23, 0x45, 0x67, 0x89, 0xab, 0xcd, 0xef, 0x00, 0x11, 0x22, 0x33, 0x44, 0x55, 0x66, 0x77, 0x88, 0x99, 0xaa, 0xbb}
 var hashB = []byte{0xff, 0xee, 0xdd, 0xcc, 0xbb, 0xaa, 0x99, 0x88, 0x77, 0x66, 0x55, 0x44, 0x33, 0x22, 0x11, 0x00, 0x12, 0x34, 0x56, 0x78}
 
+// 32 characters that are hex digits and base-32 characters at once
+const amb32 = "ABCDEF234567ABCDEF234567ABCDEF23"
+
+var hashC, _ = base32.StdEncoding.DecodeString(amb32)
+
 func xtOf(kind string) string {
 	switch kind {
 	case "hexA":
@@ -53,6 +58,16 @@ func xtOf(kind string) string {
 		return "urn:sha1:" + base32.StdEncoding.EncodeToString(hashB)
 	case "garbage":
 		return "urn:btih:zz-not-a-hash-at-all-zz"
+	case "b32pad1":
+		return "urn:btih:" + base32.StdEncoding.EncodeToString(hashA[:19]) // 31 characters and one '='
+	case "b32pad4":
+		return "urn:btih:" + base32.StdEncoding.EncodeToString(hashA[:17]) // 28 characters and "===="
+	case "hexlong":
+		return "urn:btih:" + hex.EncodeToString(hashA) + "00"
+	case "b32short":
+		return "urn:btih:" + base32.StdEncoding.EncodeToString(hashA[:15])
+	case "amb32":
+		return "urn:btih:" + amb32
 	}
 	return ""
 }
@@ -69,6 +84,12 @@ func handleMagnet(in []byte) any {
 		link = hex.EncodeToString(hashA)
 	case "bare-b32":
 		link = base32.StdEncoding.EncodeToString(hashA)
+	case "bare-b32pad":
+		link = base32.StdEncoding.EncodeToString(hashA[:19])
+	case "bare-hexlong":
+		link = hex.EncodeToString(hashA) + "00"
+	case "bare-amb32":
+		link = amb32
 	case "http-url":
 		link = "http://example.com/file.torrent?xt=" + url.QueryEscape(xtOf("hexA"))
 	case "junk":
@@ -127,7 +148,7 @@ func handleMagnet(in []byte) any {
 	}
 	if o.Verdict == "torrent" {
 		// C13: the info-hash is the one the link carries
-		want := map[string][]byte{"A": hashA, "B": hashB}[c.Exp.Hash]
+		want := map[string][]byte{"A": hashA, "B": hashB, "C": hashC}[c.Exp.Hash]
 		if len(t.Hash) != 20 {
 			viol("magnet-bad-hash", fmt.Sprintf("the torrent made from the link has an info-hash of %d bytes", len(t.Hash)))
 		} else if want != nil && string(t.Hash) != string(want) {
